@@ -491,7 +491,15 @@ check:
 	// so we have to check equality the hard way.
 looking:
 	for _, ut := range t.Type {
-		errs = append(errs, ut.resolve(d)...)
+		// An error that an earlier member reported already is not
+		// repeated: with every member contributing the whole list of
+		// the typedef it names, the list (and the work) would double
+		// with each level of a chain of unions.
+		for _, err := range ut.resolve(d) {
+			if !containsError(errs, err) {
+				errs = append(errs, err)
+			}
+		}
 		if ut.YangType != nil {
 			for _, yt := range y.Type {
 				if ut.YangType.Equal(yt) {
@@ -508,4 +516,14 @@ looking:
 	}
 
 	return errs
+}
+
+// containsError reports whether errs holds an error with the text of err.
+func containsError(errs []error, err error) bool {
+	for _, e := range errs {
+		if e.Error() == err.Error() {
+			return true
+		}
+	}
+	return false
 }
